@@ -31,10 +31,17 @@ CHK = "chk_c10 code frontends"
 _BROKEN = []
 
 
-def suite_serve(tier):
-    s, broken = c09.suite_serve(tier, stream="C10.serve", chk=CHK, multi_bias=0.8, edit_prob=0.4)
+CHK_STORES = "chk_c10_stores code frontends"
+CHK_OUTS = "chk_c10_outs"      # spec side only: independent of the generated code
+
+
+def suites_serve(tier):
+    """the same observed histories judged twice, independently: which units executed what (stores), and what was
+    sent for absent units and broadcasts (outputs) — a known defect of one aspect cannot absorb a failure of the other"""
+    s, broken = c09.suite_serve(tier, stream="C10.serve", chk=CHK_STORES, multi_bias=0.8, edit_prob=0.4)
     _BROKEN[:] = broken
-    return s
+    outs = [Case(c.term, c.desc, kind=c.kind, nontrivial=False) for c in s.cases]
+    return [s, Suite("serveout", IMPORTS, CHK_OUTS, outs, shard=s.shard)]
 
 
 R3 = bytes([3]) + struct.pack(">HH", 0, 1)
@@ -92,7 +99,7 @@ def suite_filter(tier):
 
 
 def suites(tier):
-    return [suite_serve(tier), suite_filter(tier)]
+    return suites_serve(tier) + [suite_filter(tier)]
 
 
 # ----------------------------------------------------------------------------- python side: real table contents
@@ -170,11 +177,54 @@ def _bcast_with_failure(desc):
     return False
 
 
+def _logs_if_broadcast_stops(desc):
+    """per-unit execution logs the property's routing table predicts on the current hosted set, EXCEPT that a broadcast
+    walk ends at the first unit on which request.execute raised (the region of F-C10-broadcast-stops-at-failing-unit)"""
+    sc, ob = desc["scenario"], desc["observed"]
+    cfg = sc["cfg"]
+    by_tag = {d["tag"]: d for d in ob["delivered"]}
+    cur = [[0, []]] if cfg["single"] else [[u, []] for u, _ in sc["hosted"]]
+    for kind, x in ob["timeline"]:
+        if kind == "del":
+            cur = [e for e in cur if e[0] != x]
+        elif kind == "set":
+            hit = [e for e in cur if e[0] == x]
+            if hit:
+                hit[0][1] = []
+            else:
+                cur.append([x, []])
+        else:
+            d = by_tag[x]
+            raised = {u for u, r in d["results"] if r[0] == "raise"}
+            if cfg["bcast"] and d["uid"] == 0 and not sc["fe"].startswith("tw_"):
+                for e in cur:
+                    e[1].append(x)
+                    if e[0] in raised:
+                        break
+            elif cfg["single"]:
+                cur[0][1].append(x)
+            else:
+                for e in cur:
+                    if e[0] == d["uid"]:
+                        e[1].append(x)
+    return [[u, log] for u, log in cur]
+
+
 def classify(suite, desc):
     sc = desc.get("scenario")
     if sc is None:
         return None
-    if suite in ("serve", "values"):
+    if suite == "serveout":
+        return None        # no open finding is about what is sent for a broadcast or an absent unit
+    if suite == "serve":
+        # covered only if the ONLY deviation of the stores aspect is "units behind the first raising unit of a broadcast
+        # were not executed"; what was sent is judged by the separate suite `serveout`
+        ob = desc["observed"]
+        if _bcast_with_failure(desc) and not ob["changed_unaddressed"] and \
+                _logs_if_broadcast_stops(desc) == [[u, ob["logs"][str(u)]] for u in ob["hosted_now"]]:
+            return "F-C10-broadcast-stops-at-failing-unit"
+        return None
+    if suite == "values":
         if _bcast_with_failure(desc):
             return "F-C10-broadcast-stops-at-failing-unit"
         return None
@@ -208,9 +258,9 @@ def replay_case(suite, desc):
     import json
     from lib import coqrun
     sc = desc["scenario"]
-    if suite == "serve":
+    if suite in ("serve", "serveout"):
         c, bad = c09.make_case(sc)
-        r = coqrun.eval_cases("C10_replay", IMPORTS, CHK, [c.term])
+        r = coqrun.eval_cases("C10_replay", IMPORTS, CHK_STORES if suite == "serve" else CHK_OUTS, [c.term])
         print(json.dumps(c.desc["observed"])[:1500], r)
         return bool(r["propfail"] or r["errors"] or r["disagree"])
     if suite == "filter":
@@ -228,7 +278,9 @@ def replay_case(suite, desc):
 
 def shrink(suite, desc):
     if suite == "serve":
-        return c09.shrink_serve(CHK, desc, "C10_shrink")
+        return c09.shrink_serve(CHK_STORES, desc, "C10_shrink")
+    if suite == "serveout":
+        return c09.shrink_serve(CHK_OUTS, desc, "C10_shrink")
     return None
 
 
